@@ -4,7 +4,7 @@
 id=$1
 wt=${SEEDROOT:-/tmp/seed}/$id
 cd $wt || exit 2
-for v in a b c d; do
+for v in a b c d e; do
   d=$wt/_seed/$v
   [ -f $d/patch.diff ] || continue
   git checkout -q -- . 
